@@ -452,7 +452,7 @@ func init() {
 	core.Register(&core.Monitor{
 		ID: "C16", Level: "exploration", Plan: plan, Run: run, Race: true,
 		Rule: "every registry type (struct-built and decoder-built) incl. every EDNS0 option and SVCB parameter kind, and whole messages; oracle = object-graph walker: address ranges of every slice backing array, pointer target and map " +
-			"reachable from copy vs original (and from a decoded message vs the input buffer incl. string data, plus overwrite-and-compare); deep snapshot before/after Pack, PackBuffer, Len, String, Copy, IsDuplicate, RRSIG.Sign/Verify (incl. wildcard-expanded owners); " +
+			"reachable from copy vs original (and from a decoded message vs the input buffer incl. string data, plus overwrite-and-compare); deep snapshot before/after Pack, PackBuffer, Len, String, Copy, IsDuplicate (also on program-built values: 16-octet IPv4 addresses, APL prefixes with host bits set), RRSIG.Sign/Verify (incl. wildcard-expanded owners); " +
 			"the same operations concurrently on a shared message under the Go race detector; non-trivial = distinct record/message with at least one reachable mutable range",
 		Assumptions: []string{"strings are immutable and exempt from the copy check", "Rdlength and the OPT extended-RCODE bits are documented bookkeeping"},
 		MinObserved: []string{"msg_copies", "unpack_alias_checks", "readonly_ops", "signed", "verified", "wildcard_expansions", "concurrent_rounds"},
